@@ -245,6 +245,14 @@ def r2(ctx):
         if implies_within(neg, s, k):
             within.append((bi, f))
     if not inserts:
+        other = sorted({short(t.callee() or "").split("::")[-1] for bi, t in ins.calls() if "LinkedHashMap" in (t.callee() or "") and
+                        re.search(r"::(replace|entry|raw_entry_mut|get_mut|get_or_insert_with)$", t.callee() or "")})
+        if other:
+            # stated as the finding it is: LinkedHashMap::insert is what moves an existing key to the back of the list
+            rule.fail("insert|not-moved-to-back", "LruTimeCache::insert stores the entry with LinkedHashMap::%s instead of insert: a key that is already present keeps its old "
+                      "position in the list, so the most recently inserted session can be the one evicted at capacity and the purge (which stops at the first live "
+                      "entry) no longer sees expired entries behind it" % "/".join(other), loc=ins.loc(ins.line))
+            return rule
         raise AnchorError("LruTimeCache::insert does not call LinkedHashMap::insert")
     for bi, t in inserts:
         start = t.target
